@@ -629,6 +629,12 @@ class Array(metaclass=MetaArray):
             same = tuple(shape) == tuple(self._shape)
         if same:
             info = self.__class__._inspect_args(value)
+            if tuple(info.shape) != tuple(self._shape):
+                # an integer is the extent of the dynamic dimension, not the
+                # number of items
+                raise ValueError(
+                    f"Cannot specify new length {ll} for {self}"
+                )
             if info.size != self._get_size():
                 raise ValueError(
                     f"{value} needs {info.size} bytes, "
